@@ -252,8 +252,8 @@ static int recv_events(m_ctx_t *c, int timeout) {
         m_mod_t *batch_mod = p ? p->mod : NULL;
         if (err) {
             /* batch processing was interrupted: just drop our references */
-        } else if (p && p->mod && !m_mod_is(p->mod, M_MOD_RUNNING)) {
-            /* module left RUNNING state earlier in this batch: its events stay pending */
+        } else if (p && p->mod && (!m_mod_is(p->mod, M_MOD_RUNNING) || m_bst_find(p->mod->srcs[p->type], p) != p)) {
+            /* module left RUNNING state, or source was deregistered, earlier in this batch: nothing to deliver */
         } else if (p) {
             M_ASSERT(p->process);
             if (!p->mod) {
